@@ -4,6 +4,7 @@ use crate::cal::bitmap;
 use crate::util::*;
 use chrono::{Datelike, NaiveDateTime};
 use rateslib::calendars::{get_calendar_by_name, ndt, Cal, CalType, DateRoll, NamedCal, UnionCal};
+use rateslib::verif::calendar_py as cpy;
 use serde_json::{json, Value};
 
 pub const DOC_NAMES: [&str; 14] =
@@ -33,6 +34,7 @@ pub fn dump(seed: u64, out: &str) {
             let mut hol = vec![];
             let mut nonbus = vec![];
             let mut weekend_bus = vec![];
+            let mut weekend_hol = 0usize;
             for d in a..=b {
                 let t = dn(d);
                 let wd = t.weekday().num_days_from_monday();
@@ -43,12 +45,17 @@ pub fn dump(seed: u64, out: &str) {
                     if !cal.is_bus_day(&t) {
                         nonbus.push(d);
                     }
-                } else if cal.is_bus_day(&t) {
-                    weekend_bus.push(d);
+                } else {
+                    if cal.is_bus_day(&t) {
+                        weekend_bus.push(d);
+                    }
+                    if cal.is_holiday(&t) {
+                        weekend_hol += 1;
+                    }
                 }
             }
             o.emit(&json!({"op":"year","key":format!("year/{}/{}", name, y),"name":name,"y":y,
-                           "hol":hol,"nonbus":nonbus,"weekend_bus_count":weekend_bus.len(),"weekend_days": (b - a + 1) as usize - count_weekdays(a, b)}));
+                           "hol":hol,"nonbus":nonbus,"weekend_bus_count":weekend_bus.len(),"weekend_hol_count":weekend_hol,"weekend_days": (b - a + 1) as usize - count_weekdays(a, b)}));
         }
         // the same name through NamedCal in random letter case must be the same calendar (window projections)
         for k in 0..3 {
@@ -57,9 +64,13 @@ pub fn dump(seed: u64, out: &str) {
             match res {
                 Outcome::Ok(Ok(nc)) => {
                     let (lo, hi) = WINDOWS[k];
+                    // the holiday question itself, every day of 1970-2200, through the named calendar (and the generic container)
+                    let (r0, r1) = (nd(&ndt(1970, 1, 1)), nd(&ndt(2200, 12, 31)));
+                    let t = CalType::NamedCal(nc.clone());
+                    let hol_diff = (r0..=r1).filter(|d| { let x = dn(*d); let w = cal.is_holiday(&x); nc.is_holiday(&x) != w || t.is_holiday(&x) != w }).count();
                     o.emit(&json!({"op":"resolve","key":format!("resolve/{}/case{}", name, k),"str":s,"name":name,"o":"ok","via":"NamedCal",
                         "win":k+1,"bus":bitmap(lo, hi, |d| nc.is_bus_day(d)),"ref":bitmap(lo, hi, |d| cal.is_bus_day(d)),
-                        "stl_all": (lo..=hi).all(|d| nc.is_settlement(&dn(d)))}));
+                        "stl_all": (lo..=hi).all(|d| nc.is_settlement(&dn(d))), "hol_diff_n": hol_diff}));
                 }
                 Outcome::Ok(Err(_)) => o.emit(&json!({"op":"resolve","key":format!("resolve/{}/case{}", name, k),"str":s,"name":name,"o":"err","via":"NamedCal"})),
                 Outcome::Panic(_) => o.emit(&json!({"op":"resolve","key":format!("resolve/{}/case{}", name, k),"str":s,"name":name,"o":"panic","via":"NamedCal"})),
@@ -126,9 +137,15 @@ pub fn grammar(cases: &str, seed: u64, out: &str) {
         let k = (i % 3) as usize;
         let (lo, hi) = WINDOWS[k];
         let via_type = i % 2 == 1;
-        let ev = match guard(|| NamedCal::try_new(&s)) {
+        // every third triple of cases goes through the Python-facing class: its constructor, then its own predicates
+        let via_py = (i / 3) % 3 == 2;
+        let ev = match guard(|| if via_py { cpy::named_new(&s).map_err(|_| ()) } else { NamedCal::try_new(&s).map_err(|_| ()) }) {
             Outcome::Ok(Ok(nc)) => {
-                if via_type {
+                if via_py {
+                    json!({"op":"name","key":format!("name/{}", s.to_lowercase()),"toks":toks,"str":s,"o":"ok","win":k+1,"via":"PyNamedCal",
+                           "bus":bitmap(lo, hi, |d| cpy::named_pred(&nc, "is_bus_day", *d).unwrap_or(false)),
+                           "stl":bitmap(lo, hi, |d| cpy::named_pred(&nc, "is_settlement", *d).unwrap_or(false))})
+                } else if via_type {
                     let t = CalType::NamedCal(nc);
                     json!({"op":"name","key":format!("name/{}", s.to_lowercase()),"toks":toks,"str":s,"o":"ok","win":k+1,"via":"CalType",
                            "bus":bitmap(lo, hi, |d| t.is_bus_day(d)),"stl":bitmap(lo, hi, |d| t.is_settlement(d))})
@@ -176,7 +193,10 @@ pub fn unions(seed: u64, n: usize, out: &str) {
         let sb: Vec<Value> = settle.as_ref().map(|v| v.iter().map(|c| bitmap(lo, hi, |d| c.is_bus_day(d))).collect()).unwrap_or_default();
         let has_settle = settle.is_some();
         let u = UnionCal::new(members, settle);
-        let (bus, stl) = if i % 2 == 0 {
+        let (bus, stl) = if i % 3 == 2 {
+            // the Python-facing class's own predicates
+            (bitmap(lo, hi, |d| cpy::union_pred(&u, "is_bus_day", *d).unwrap_or(false)), bitmap(lo, hi, |d| cpy::union_pred(&u, "is_settlement", *d).unwrap_or(false)))
+        } else if i % 2 == 0 {
             (bitmap(lo, hi, |d| u.is_bus_day(d)), bitmap(lo, hi, |d| u.is_settlement(d)))
         } else {
             let t = CalType::UnionCal(u);
